@@ -21,9 +21,18 @@ type isolated struct {
 	Accepted bool
 	Snap     ref.Flat
 	Panicked bool
+	FromRef  bool // Snap is the reference decoder's reading (compare shared keys only)
 }
 
 func readIsolated(frame []byte) isolated {
+	// For a frame the strict reference decoder accepts, what must come out
+	// is known independently of the library and of whatever state it may
+	// have accumulated: the reference reading. (A library that resolves,
+	// caches or pools across packets would give the same wrong answer in
+	// an "isolated" read made in the same process.)
+	if d, err := ref.Decode(frame); err == nil {
+		return isolated{Accepted: true, Snap: d.Flat(), FromRef: true}
+	}
 	res := libRead(frame)
 	if res.Panic != nil {
 		return isolated{Panicked: true}
@@ -60,10 +69,11 @@ func sameOutcome(iso isolated, res mon.ReadResult) (bool, string) {
 	if pan != nil {
 		return false, "accessor panic: " + pan.String()
 	}
-	if d, a, b := ref.Diff(iso.Snap, snap); len(d)+len(a)+len(b) > 0 {
-		if len(d) > 0 {
-			return false, "decoded differently: " + d[0]
-		}
+	d, a, b := ref.Diff(iso.Snap, snap)
+	if len(d) > 0 {
+		return false, "decoded differently: " + d[0]
+	}
+	if !iso.FromRef && len(a)+len(b) > 0 {
 		return false, "decoded to a different set of fields"
 	}
 	return true, ""
@@ -156,6 +166,24 @@ func genFrame(r *gen.RNG, size int) wireFrame {
 			body = append(body, r.Bytes(1+r.Intn(6))...)
 		}
 		return wireFrame{Bytes: ref.Reframe(b[0], body), Kind: "malformed", Type: t}
+	case k == 19 && r.Bool(): // a valid frame whose remaining length is written with padding (non-minimal, accepted by ReadPacket)
+		t := gen.AllTypes[r.Intn(len(gen.AllTypes))]
+		a := gen.Packet(r, t, gen.RandomMask(r, t), gen.Small, wfDomain)
+		b, _ := ref.Encode(a)
+		h, _ := ref.ParseHeader(b)
+		if h.HdrLen-1 < 4 {
+			pad := 1 + r.Intn(4-(h.HdrLen-1))
+			out := []byte{b[0]}
+			lenBytes := append([]byte(nil), b[1:h.HdrLen]...)
+			lenBytes[len(lenBytes)-1] |= 0x80
+			for i := 0; i < pad-1; i++ {
+				lenBytes = append(lenBytes, 0x80)
+			}
+			lenBytes = append(lenBytes, 0x00)
+			out = append(append(out, lenBytes...), b[h.HdrLen:]...)
+			return wireFrame{Bytes: out, Kind: "padded-remlen", Type: t}
+		}
+		return wireFrame{Bytes: b, Kind: "ref", Type: t}
 	default: // type 0
 		n := r.Intn(12)
 		return wireFrame{Bytes: ref.Reframe(byte(r.Intn(16)), r.Bytes(n)), Kind: "type0", Type: 0}
